@@ -2,7 +2,6 @@ package main
 
 import (
 	"fmt"
-	"go/token"
 	"os"
 	"strings"
 
@@ -76,7 +75,7 @@ func checkC06(c *Ctx) (string, []string) {
 		"ret#3": {"0", c.constStr("PVM", "ExitPanic")},
 	})
 
-	c.Rule("C06.rejection", "DecodeSerializedValues checks the error of every ReadUintFixed/ReadBytes before the next read or a successful return and reads the fields in the order E3|o| E3|w| E2 z E3 s o w E4|c| c; SingleInitializer rejects (panic) when decoding fails", 7)
+	c.Rule("C06.rejection", "DecodeSerializedValues checks the error of every ReadUintFixed/ReadBytes before the next read or a successful return and reads the fields in the order E3|o| E3|w| E2 z E3 s o w E4|c| c; SingleInitializer rejects (panic) when decoding fails", 4)
 	readU, readB := c.Obj("PVM", "ReadUintFixed"), c.Obj("PVM", "ReadBytes")
 	reads := callsIn(d, readU, readB)
 	var order []string
@@ -105,86 +104,123 @@ func checkC06(c *Ctx) (string, []string) {
 		key := fmt.Sprintf("PVM.DecodeSerializedValues · read #%d %s", len(order), order[len(order)-1])
 		c.Check(len(succ) > 0 && !unchecked, "C06.rejection", key, k.Pos(), "error checked before the next read / successful return", "the error of this read can be ignored: decoding continues (or succeeds) after a short read")
 	}
-	// field order as a sequence of reads in program order; a loop over a literal width table counts as its unrolling, and a
-	// length taken from a local array slot filled by that loop is the result of the corresponding round
+	// field order, widths and truncation, decided on the decoder as a whole (bit-provenance abstract interpretation,
+	// bitfield.go): the three lengths are constants of the partition, z, s and all payload bytes are symbolic; package
+	// helpers (ReadUintFixed, ReadBytes, a header helper, a width table) are followed
 	{
-		type rd struct {
-			kind   string // "U<width>" or "B<provenance>"
-			result string // name of the value this read produces
-		}
-		var seq []rd
-		so := shapeOpts
-		so.cat, so.seqLit = true, true
-		nU := 0
-		slotOf := map[string]string{} // "A[k]" -> "u#n"
-		prov := func(v ssa.Value) string {
-			// Extract#0 of a ReadUintFixed call, possibly converted
-			if ex, ok := stripConv(v).(*ssa.Extract); ok && ex.Index == 0 {
-				if call, ok := ex.Tuple.(*ssa.Call); ok {
-					for i, k := range reads {
-						if k.(ssa.Value) == ssa.Value(call) {
-							return fmt.Sprintf("call#%d", i)
+		bad, undecided := "", ""
+		nparts := 0
+		for _, ln := range [][3]int{{0, 0, 0}, {3, 2, 5}, {1, 0, 4}, {0, 7, 1}, {300, 1, 2}} {
+			lo, lw, lc := ln[0], ln[1], ln[2]
+			total := 11 + lo + lw + 4 + lc
+			le := func(v, n int) []byte {
+				out := make([]byte, n)
+				for k := 0; k < n; k++ {
+					out[k] = byte(v >> (8 * k))
+				}
+				return out
+			}
+			conc := map[int]byte{}
+			for k, x := range le(lo, 3) {
+				conc[k] = x
+			}
+			for k, x := range le(lw, 3) {
+				conc[3+k] = x
+			}
+			for k, x := range le(lc, 4) {
+				conc[11+lo+lw+k] = x
+			}
+			for n := 0; n <= total && bad == "" && undecided == ""; n++ {
+				if n < total && n > 24 && n < total-6 {
+					continue // long payloads: only the cuts near the ends
+				}
+				nparts++
+				m := &bfMachine{maxSteps: 60000}
+				heap := bfHeap{}
+				arr := m.newArray(heap, n)
+				for k := 0; k < n; k++ {
+					if x, isC := conc[k]; isC {
+						heap[arr][k] = bfConst(uint64(x), 8, false)
+						continue
+					}
+					v := bfInt{w: 8}
+					for j := 0; j < 8; j++ {
+						v.b[j] = bfBit{k: 2, i: uint16(8*k + j)}
+					}
+					heap[arr][k] = v
+				}
+				where := fmt.Sprintf("|o|=%d |w|=%d |c|=%d, %d of %d octets", lo, lw, lc, n, total)
+				for _, o := range m.call(d, []any{bfSlice{obj: arr, lo: 0, hi: n, cp: n}}, heap, 0) {
+					if o.fault != "" {
+						if o.panics {
+							bad = where + ": " + o.fault
+						} else {
+							undecided = where + ": " + o.fault
+						}
+						break
+					}
+					if len(o.results) != 6 {
+						undecided = where + ": unexpected result arity"
+						break
+					}
+					e, isE := o.results[5].(bfErr)
+					if !isE {
+						undecided = where + ": error status not determined"
+						break
+					}
+					if n < total {
+						if !e.nonNil {
+							bad = where + ": a truncated blob is accepted"
+						}
+						continue
+					}
+					if e.nonNil {
+						bad = where + ": a complete blob is rejected"
+						break
+					}
+					// results are (c, o, w, z, s, err) — the order SingleInitializer reads them in (C06.layout)
+					for k, want := range [][2]int{{15 + lo + lw, 15 + lo + lw + lc}, {11, 11 + lo}, {11 + lo, 11 + lo + lw}} {
+						sl, isSl := o.results[k].(bfSlice)
+						if !isSl || sl.hi-sl.lo != want[1]-want[0] {
+							bad = fmt.Sprintf("%s: result #%d has %d octets, the layout gives octets %d..%d", where, k, sl.hi-sl.lo, want[0], want[1])
+							break
+						}
+						for q := 0; q < want[1]-want[0] && bad == ""; q++ {
+							if bfElem(o.heap, sl.obj, sl.lo+q) != bfElem(heap, arr, want[0]+q) {
+								bad = fmt.Sprintf("%s: octet %d of result #%d is not octet %d of the blob", where, q, k, want[0]+q)
+							}
 						}
 					}
-				}
-			}
-			if u, ok := stripConv(v).(*ssa.UnOp); ok && u.Op == token.MUL {
-				if ia, ok := u.X.(*ssa.IndexAddr); ok {
-					if k, ok := constInt(ia.Index); ok {
-						return fmt.Sprintf("slot[%d]", k)
-					}
-				}
-			}
-			return exprStr(v, shapeOpts)
-		}
-		callName := map[int]string{}
-		for i, k := range reads {
-			args := k.Common().Args
-			switch calleeObject(k).Name() {
-			case "ReadUintFixed":
-				ws := expandSeq(exprStr(args[1], so))
-				stored := ""
-				// result stored into A[loop index]?
-				for _, r := range *k.(ssa.Value).Referrers() {
-					if ex, ok := r.(*ssa.Extract); ok && ex.Index == 0 && ex.Referrers() != nil {
-						for _, r2 := range *ex.Referrers() {
-							if st, ok := r2.(*ssa.Store); ok {
-								if ia, ok := st.Addr.(*ssa.IndexAddr); ok && exprStr(ia.Index, shapeOpts) == "*" {
-									stored = "slot"
-								}
+					for k, f := range []struct{ idx, at, nb int }{{3, 6, 2}, {4, 8, 3}} {
+						v, isInt := o.results[f.idx].(bfInt)
+						if !isInt || bad != "" {
+							if bad == "" {
+								undecided = where + ": z/s not followed"
+							}
+							break
+						}
+						for j := 0; j < int(v.w); j++ {
+							var want bfBit
+							if j < 8*f.nb {
+								want = bfBit{k: 2, i: uint16(8*(f.at+j/8) + j%8)}
+							}
+							if v.b[j] != want {
+								bad = fmt.Sprintf("%s: bit %d of %s is %s, the layout defines %s", where, j, []string{"z", "s"}[k], bfBitString(v.b[j]), bfBitString(want))
+								break
 							}
 						}
 					}
 				}
-				for j, w := range ws {
-					w = strings.TrimPrefix(w, "*")
-					name := fmt.Sprintf("u#%d", nU)
-					nU++
-					if stored == "slot" && len(ws) > 1 {
-						slotOf[fmt.Sprintf("slot[%d]", j)] = name
-					} else {
-						callName[i] = name
-					}
-					seq = append(seq, rd{"U" + w, name})
-				}
-			case "ReadBytes":
-				p := prov(args[1])
-				if strings.HasPrefix(p, "call#") {
-					var n int
-					fmt.Sscanf(p, "call#%d", &n)
-					p = callName[n]
-				} else if nm, ok := slotOf[p]; ok {
-					p = nm
-				}
-				seq = append(seq, rd{"B(" + p + ")", ""})
 			}
 		}
-		var got []string
-		for _, r := range seq {
-			got = append(got, r.kind)
+		switch {
+		case bad != "":
+			c.Bad("C06.rejection", "PVM.DecodeSerializedValues · field order", d.Pos(), "%s", bad)
+		case undecided != "":
+			c.Unknown("C06.rejection", "PVM.DecodeSerializedValues · field order", d.Pos(), "%s", undecided)
+		default:
+			c.OK("C06.rejection", "PVM.DecodeSerializedValues · field order", d.Pos(), "E3|o| E3|w| E2 z E3 s, o, w, E4|c|, c: the results are exactly those octets of the blob and every truncation is rejected (%d partitions, symbolic payload)", nparts)
 		}
-		want := "U3 U3 U2 U3 B(u#0) B(u#1) U4 B(u#4)"
-		c.Check(strings.Join(got, " ") == want, "C06.rejection", "PVM.DecodeSerializedValues · field order", d.Pos(), "fields read in GP order with GP widths: E3|o| E3|w| E2 z E3 s, o, w, E4|c|, c", "fields are read as ["+strings.Join(got, " ")+"], GP order is ["+want+"]")
 	}
 	// SingleInitializer: decode error -> ExitPanic
 	{
